@@ -61,6 +61,7 @@ type Exec struct {
 	touched    map[string]map[uint64]bool
 	incomplete []string
 	cur        *State
+	lenient    bool
 }
 
 type KnownFinding struct {
